@@ -32,6 +32,18 @@ CLAIMED = {
    text='(a) In process: theorem C11_observer_agrees - for every disjoint deal, contract, observer seat and every sequence of plays the full-information model accepts, the observer model accepts every step and its public state (contract data, leader, turn, trick, trick number, history, counts) equals the full state, its own and dummy\'s remaining cards equal the true hands; proved as a step-wise simulation. Tie: four ObservedPlayingPhase replicas fed every accepted play of generated boards, compared in Coq with model and reference. (b) Over the wire: the bundled Client in controlled sessions (see C08/C10 machinery) - replicas of auction and play compared at the end of each board.',
    design='4/C11', technique='Coq proof: simulation relation by induction; differential correspondence evaluated by vm_compute; controlled-scheduler sessions for the network part',
    note='Trusted: as C04; part (b) additionally the controlled scheduler and fake sockets. Print Assumptions: closed.'),
+ 'C01': dict(
+   text='Theorems about the Coq model of BiddingPhase, for every dealer, vulnerability and EVERY list of offered calls, legal or not (induction over the offers with one invariant tying each cached field to a function of the bare history): in every not-ended reachable state the 38-slot vector is exactly the legal set of Spec/Laws.v (pass always; bid iff it outranks the last bid; double iff the last non-pass call is an opponent\'s bid; redouble iff it is an opponent\'s double), a call is accepted iff legal, reported ILLEGAL iff not, a rejected call returns the identical state, an accepted call appends exactly itself. Tie: walks of offers (directed families, the 319-call auction, random/competitive walks, all short sequences) with all 38 calls probed on copies, snapshot comparison around refusals; model and Law-19 oracle both evaluated in Coq on the recorded behaviour.',
+   design='4/C01', technique='Coq proof: invariant by induction over arbitrary offer lists; differential correspondence and Spec oracle evaluated by vm_compute',
+   note='Trusted: Coq kernel + vm_compute; drivers/auction.py; numpy vector / dict / Enum semantics modelled. Spec/Laws.v is the statement of Laws 18-22. Print Assumptions: closed under the global context.'),
+ 'C02': dict(
+   text='Same model and quantifiers as C01: the seat on turn is the dealer rotated by the number of accepted calls and none once the auction has ended; ended (Spec/Laws.v: four opening passes, or three passes after any bid, double or redouble) holds exactly when the model says done - never earlier, and no reachable history has an ended proper prefix (never later); FINISHED is returned exactly by the call that ends it; each seat\'s personal list is its share of the common history; after the end every call raises and returns the same state; no auction is longer than 319 calls (and the 319-call auction is accepted).',
+   design='4/C02', technique='Coq proof: invariant by induction over arbitrary offer lists (+ potential argument for the length bound); correspondence and oracle evaluated by vm_compute',
+   note='Trusted: as C01. Print Assumptions: closed under the global context.'),
+ 'C03': dict(
+   text='Same model and quantifiers: when the auction has ended contract() is exactly contract_spec of the bare history - the last bid, x / xx iff a double / redouble follows it, the board\'s vulnerability, declarer = the first member of the last bidder\'s side to have named that strain anywhere in the auction, passed out with no declarer when there is no bid; before the end no contract is reported.',
+   design='4/C03', technique='Coq proof: invariant by induction over arbitrary offer lists; correspondence and oracle evaluated by vm_compute',
+   note='Trusted: as C01. Print Assumptions: closed under the global context.'),
 }
 
 def main():
